@@ -59,17 +59,17 @@ def ranked(P, i):
 
 
 class LogElicitor:
-    """factory for a LambdaElicitor over a valuation matrix that logs every forwarded question"""
+    """factory for a (Integer)LambdaElicitor over a valuation matrix that logs every forwarded question"""
 
-    def __init__(self, vals, memoize=True):
-        from socialchoicekit.elicitation_utils import LambdaElicitor
+    def __init__(self, vals, memoize=True, integer=False):
+        from socialchoicekit.elicitation_utils import LambdaElicitor, IntegerLambdaElicitor
         self.vals = vals
         self.log = []
 
         def f(a, j):
             self.log.append((int(a), int(j)))
             return float(vals[int(a)][int(j)])
-        self.el = LambdaElicitor(f, memoize=memoize, zero_indexed=True)
+        self.el = (IntegerLambdaElicitor if integer else LambdaElicitor)(f, memoize=memoize, zero_indexed=True)
 
 
 def profile_of(P):
@@ -77,37 +77,48 @@ def profile_of(P):
     return StrictCompleteProfile.of(np.array(P, dtype=np.int64))
 
 
-def run_rule(rule, P, vals, k, zero=True, tie_breaker="accept", memoize=True):
-    """returns dict(sim=matrix of exact rationals, out=outcome, log=[(agent, alt)...], count=elicitation_count)"""
+def run_rule(rule, P, vals, k, zero=True, tie_breaker="accept", memoize=True, cache=None, integer=False):
+    """returns dict(sim=matrix of exact rationals, out=outcome, log=[(agent, alt)...], count=elicitation_count).
+    `cache`: dict of rule objects reused across calls (a caller may keep one rule object for many elections);
+    `integer`: answer through an IntegerLambdaElicitor (valuations must be integers)"""
     from socialchoicekit.elicitation_voting import KARV, LambdaPRV
     from socialchoicekit.elicitation_allocation import LambdaTSF, MatchTwoQueries
     prof = profile_of(P)
-    le = LogElicitor(vals, memoize)
+    _LE = LogElicitor
+    LogEl = lambda v, mm: _LE(v, mm, integer)
+    le = LogEl(vals, memoize)
     res = {}
+
+    def obj(key, mk):
+        if cache is None:
+            return mk()
+        if key not in cache:
+            cache[key] = mk()
+        return cache[key]
     if rule == "karv":
-        r = KARV(k=k, tie_breaker=tie_breaker, zero_indexed=zero)
+        r = obj(("karv", k, tie_breaker, zero), lambda: KARV(k=k, tie_breaker=tie_breaker, zero_indexed=zero))
         sim = r.get_simulated_cardinal_profile(prof, le.el)
         res["sim"] = [[fr(Fraction(float(x))) for x in row] for row in np.asarray(sim)]
-        le2 = LogElicitor(vals, memoize)
+        le2 = LogEl(vals, memoize)
         w = r.scf(prof, le2.el)
         res["out"] = [int(x) for x in np.atleast_1d(w)]
-        res["score"] = [fr(Fraction(float(x))) for x in r.score(prof, LogElicitor(vals, memoize).el)]
+        res["score"] = [fr(Fraction(float(x))) for x in r.score(prof, LogEl(vals, memoize).el)]
     elif rule == "prv":
-        r = LambdaPRV(lambda_=k, tie_breaker=tie_breaker, zero_indexed=zero)
+        r = obj(("prv", k, tie_breaker, zero), lambda: LambdaPRV(lambda_=k, tie_breaker=tie_breaker, zero_indexed=zero))
         sc = r.score(prof, le.el)
         res["sim"] = None
         res["score"] = [fr(Fraction(float(x))) for x in sc]
-        res["out"] = [int(x) for x in np.atleast_1d(r.scf(prof, LogElicitor(vals, memoize).el))]
+        res["out"] = [int(x) for x in np.atleast_1d(r.scf(prof, LogEl(vals, memoize).el))]
     elif rule == "tsf":
-        r = LambdaTSF(lambda_=k, zero_indexed=zero)
+        r = obj(("tsf", k, zero), lambda: LambdaTSF(lambda_=k, zero_indexed=zero))
         sim = r.get_simulated_cardinal_profile(prof, le.el)
         res["sim"] = [[fr(Fraction(float(x))) for x in row] for row in np.asarray(sim)]
-        res["out"] = [int(x) for x in r.scf(prof, LogElicitor(vals, memoize).el)]
+        res["out"] = [int(x) for x in r.scf(prof, LogEl(vals, memoize).el)]
     elif rule == "m2q":
-        r = MatchTwoQueries(zero_indexed=zero)
+        r = obj(("m2q", zero), lambda: MatchTwoQueries(zero_indexed=zero))
         sim = r.get_simulated_cardinal_profile(prof, le.el)
         res["sim"] = [[fr(Fraction(float(x))) for x in row] for row in np.asarray(sim)]
-        res["out"] = [int(x) for x in r.scf(prof, LogElicitor(vals, memoize).el)]
+        res["out"] = [int(x) for x in r.scf(prof, LogEl(vals, memoize).el)]
     else:
         raise ValueError(rule)
     res["log"] = [list(q) for q in le.log]
